@@ -27,6 +27,7 @@ func (w *World) Serve(q *Req) {
 	cancel := ctx.cancel
 	q.rawCancel = cancel
 	q.substituted = false
+	q.logSink.b = q.logSink.b[:0]
 	q.Local.Ref = q
 	q.Local.Init(q.PlannedCancel, func() {
 		q.AsyncCancelAt = q.Local.CIdx
@@ -172,7 +173,33 @@ func (q *Req) Outcome() string {
 		sb.WriteString(e.String())
 	}
 	sb.WriteString("|esc=" + q.Escaped)
+	if len(q.logSink.b) > 0 {
+		sb.WriteString("|log=")
+		sb.WriteString(normaliseLog(string(q.logSink.b)))
+	}
 	return sb.String()
+}
+
+// normaliseLog keeps the request log's own records (the Logger middleware's Started/Completed
+// lines) without their one wall-clock dependent field; Recovery's panic records carry stack
+// traces whose outer frames differ between a task and a solo caller and are left out.
+func normaliseLog(s string) string {
+	var out []string
+	for _, line := range strings.Split(s, "\n") {
+		if !strings.Contains(line, "Started") && !strings.Contains(line, "Completed") {
+			continue
+		}
+		if strings.Contains(line, "PANIC") || strings.Contains(line, ".go:") {
+			continue
+		}
+		for _, f := range strings.Fields(line) {
+			if strings.HasPrefix(f, "duration=") {
+				continue
+			}
+			out = append(out, f)
+		}
+	}
+	return strings.Join(out, " ")
 }
 
 // Trace renders the event log.
@@ -223,4 +250,4 @@ func (q *Req) DescribeProgs() []string {
 
 // OpNames for reports.
 var OpNames = []string{"yield", "writeHeader", "write", "flush", "next", "nextSwallow", "cancel", "mapExtra", "seeExtra", "panic", "echo",
-	"mark", "checkMark", "setHeader", "before", "render", "redirect", "status", "cookie", "seeSvc", "seeHeaders", "mapIface", "seeIface", "invoke", "apply", "setContentLength", "expireCtx", "mapOwnWriter", "seePath", "seeBody", "mapReturnHandler", "mutQuery", "replaceCtx"}
+	"mark", "checkMark", "setHeader", "before", "render", "redirect", "status", "cookie", "seeSvc", "seeHeaders", "mapIface", "seeIface", "invoke", "apply", "seeNamer", "setContentLength", "expireCtx", "mapOwnWriter", "seePath", "seeBody", "mapReturnHandler", "mutQuery", "replaceCtx"}
